@@ -113,6 +113,10 @@ func newC10Sys(cfg drv.Config, maxD int) (*c10Sys, error) {
 				c10Op{kind: "multi", bucket: bn, key: k},
 				c10Op{kind: "form", bucket: bn, key: k},
 			)
+			if k == "x" || k == "w/z/q" {
+				// sub-resource names of bucket operations on an object path
+				s.ops = append(s.ops, c10Op{kind: "put-versioning", bucket: bn, key: k}, c10Op{kind: "put-uploads", bucket: bn, key: k})
+			}
 		}
 		s.ops = append(s.ops, c10Op{kind: "list", bucket: bn, key: "", read: true}, c10Op{kind: "list", bucket: bn, key: "../", read: true},
 			c10Op{kind: "create-bucket", bucket: bn}, c10Op{kind: "delete-bucket", bucket: bn})
@@ -146,10 +150,11 @@ type c10Snap struct {
 	objs    map[string]map[string]string // bucket -> key -> view
 	raw     []string
 	upload  string // the victim upload as ListMultipartUploads / ListParts show it
+	vers    map[string]string // bucket -> versioning status, where the backend has one
 }
 
 func (s *c10Sys) snap() c10Snap {
-	sn := c10Snap{list: map[string]string{}, objs: map[string]map[string]string{}}
+	sn := c10Snap{list: map[string]string{}, objs: map[string]map[string]string{}, vers: map[string]string{}}
 	names, lr := s.w.ListBuckets()
 	sn.buckets = names
 	if lr.Status != 200 {
@@ -167,6 +172,11 @@ func (s *c10Sys) snap() c10Snap {
 	for _, b := range bks {
 		lp := s.w.List(b, "")
 		sn.list[b] = fmt.Sprintf("%d %s %s", lp.Status, lp.Code, panicSigOf(lp.Panic))
+		if vr := s.w.Do(drv.Req{Method: "GET", Path: "/" + b, Query: "versioning"}); vr.Status == 200 {
+			if n := vr.XML(); n != nil {
+				sn.vers[b] = n.T("Status")
+			}
+		}
 		sn.objs[b] = map[string]string{}
 		keys := map[string]bool{"x": true, "w/y": true}
 		for _, e := range lp.Entries {
@@ -216,6 +226,7 @@ func (sn c10Snap) canonical() string {
 	}
 	sb.WriteString(strings.Join(sn.raw, "\n"))
 	sb.WriteString("\n" + sn.upload)
+	fmt.Fprintf(&sb, "\n%v", sn.vers)
 	return sb.String()
 }
 
@@ -292,6 +303,10 @@ func (s *c10Sys) Apply(op engine.Op) (string, *engine.Violation) {
 			q = drv.Q("prefix", o.key, "delimiter", "/")
 		}
 		r = s.w.Do(drv.Req{Method: "GET", Path: "/" + o.bucket, Query: q})
+	case "put-versioning":
+		r = s.w.Do(drv.Req{Method: "PUT", Path: "/" + o.bucket + "/" + o.key, Query: "versioning", Body: []byte("<VersioningConfiguration><Status>Enabled</Status></VersioningConfiguration>")})
+	case "put-uploads":
+		r = s.w.Do(drv.Req{Method: "PUT", Path: "/" + o.bucket + "/" + o.key, Query: "uploads", Body: body})
 	case "mp-listparts":
 		r = s.w.Do(drv.Req{Method: "GET", Path: "/" + o.bucket + "/" + o.key, Query: drv.Q("uploadId", s.victimID)})
 	case "mp-part":
@@ -347,6 +362,12 @@ func (s *c10Sys) Apply(op engine.Op) (string, *engine.Violation) {
 	for _, b := range pre.buckets {
 		if !contains(post.buckets, b) && !(o.kind == "delete-bucket" && b == o.bucket) {
 			return bad("bucket-disappeared", "bucket %q disappeared from ListBuckets", b)
+		}
+	}
+	// the configuration of a bucket is not a key's to change
+	for b, st := range pre.vers {
+		if now, ok := post.vers[b]; ok && now != st {
+			return bad("bucket-versioning-changed", "versioning of bucket %s was %q and is now %q", b, st, now)
 		}
 	}
 	// a pending upload belongs to its bucket and key: requests addressed to another
